@@ -61,12 +61,13 @@ def referencesModel (m : SModel) (f : Expr) : Bool :=
     | (some t, _) => stripCte t == m.name
     | _ => false
 
-/-- `_classify_filters_for_pushdown` (single model) -/
+/-- `_classify_filters_for_pushdown` (single model): AND-flatten, then per conjunct: references a
+metric → main query; references the model → pushed into its CTE; otherwise → main query.
+(The Python loop appends in order; written here as order-preserving filters.) -/
 def classify (m : SModel) (filters : List Expr) : Classified :=
-  (filters.flatMap Expr.conjuncts).foldl (fun acc f =>
-    if referencesMetric m f then { acc with main := acc.main ++ [f] }
-    else if referencesModel m f then { acc with pushdown := acc.pushdown ++ [f] }
-    else { acc with main := acc.main ++ [f] }) {}
+  let conj := filters.flatMap Expr.conjuncts
+  { pushdown := conj.filter fun f => !referencesMetric m f && referencesModel m f,
+    main := conj.filter fun f => referencesMetric m f || !referencesModel m f }
 
 def dedupS (l : List String) : List String := l.eraseDups
 
@@ -197,6 +198,21 @@ def havingOf (m : SModel) : Expr → AExpr
   | .case c a b => .case (havingOf m c) (havingOf m a) (havingOf m b)
   | e => .lit (e.eval [])      -- other shapes are not generated for metric-value filters
 
+def hasDotC (s : String) : Bool := s.toList.contains '.'
+
+/-- `_resolve_segments` for one reference: `{model}` → `<model>_cte`, then every unqualified
+column is qualified with `<model>_cte` -/
+def resolveSegment (m : SModel) (ref : String) : Except String Expr :=
+  match splitFirstDot ref with
+  | none => .error "value_error: segment reference"
+  | some (mn, sn) =>
+    if mn != m.name then .error "key_error: model"
+    else match m.segment? sn with
+      | none => .error "value_error: segment not found"
+      | some sg => .ok (sg.sql.mapCols fun c =>
+          if Str.startsWith c "{model}." then m.name ++ "_cte." ++ Str.dropLen c 8
+          else if hasDotC c then c else m.name ++ "_cte." ++ c)
+
 /-- truthiness of an `int | None` (`if limit:`) -/
 def truthyNat : Option Nat → Option Nat
   | some 0 => none
@@ -205,7 +221,8 @@ def truthyNat : Option Nat → Option Nat
 def genSingle (m : SModel) (q : Query) : Except String Plan := do
   let dims0 := applyDefaultTimeDims m q.metrics q.dims
   let parsed := dims0.map parseDimRef
-  let cl := classify m q.filters
+  let segF ← q.segments.mapM (resolveSegment m)
+  let cl := classify m (q.filters ++ segF)
   let cte := buildCte m parsed q.metrics cl.pushdown q.orderBy
   -- SELECT list: dimensions
   let dimItems ← parsed.mapM fun (ref, gran) =>
